@@ -128,7 +128,7 @@ pub fn run(cfg: &Cfg, rep: &mut Report) {
     rep.assumptions.push("vocabulary = frozen reference names; modules are in logical-layout order (a constant or switch whose type is declared later in the stream is not generated)".into());
     let d = db();
     let n_ops = d.insts.len() as u64;
-    let n = cfg.n(n_ops * 2, n_ops * 120);
+    let n = cfg.n(n_ops * 10, n_ops * 120);
     run_stage(cfg, rep, "loader-modules", n, |idx, rng, r| {
         let must = (idx % n_ops) as usize;
         let mut gen = Gen::new(1000);
@@ -185,7 +185,49 @@ pub fn run(cfg: &Cfg, rep: &mut Report) {
             _ => r.count("not_loaded", 1),
         }
     });
-    let n = cfg.n(1500, 60_000);
+    // operand level: every enumerant of every value enum and every single bit / all bits / random
+    // subsets of every mask must be rendered by its specification name (covers the kinds no opcode
+    // of the workload carries)
+    let mut vals: Vec<(K, u32)> = vec![];
+    for (_, k) in crate::generated::decls::OPERAND_KINDS {
+        match crate::generated::decls::kind_class(*k) {
+            0 => vals.extend(d.enum_values(*k).iter().map(|(_, v)| (*k, *v))),
+            1 => {
+                vals.push((*k, 0));
+                vals.extend(d.mask_bits(*k).iter().map(|b| (*k, *b)));
+                vals.push((*k, d.mask_all(*k)));
+                let mut rng = Rng::new(cfg.seed ^ 0xC07);
+                let bits = d.mask_bits(*k);
+                for _ in 0..16 {
+                    vals.push((*k, bits.iter().filter(|_| rng.chance(1, 2)).fold(0, |a, b| a | b)));
+                }
+            }
+            _ => {}
+        }
+    }
+    let vals_ref = &vals;
+    run_stage(cfg, rep, "operand-names", vals.len() as u64, |idx, _rng, r| {
+        let (k, v) = vals_ref[idx as usize];
+        let rp = || crate::util::replay_ref(cfg, "operand-names", idx);
+        let o = match crate::generated::decls::mk_enum_operand(k, v) {
+            Some(o) => o,
+            None => return,
+        };
+        let text = match catch(|| o.disassemble()) {
+            Ok(t) => t,
+            Err(p) => {
+                r.violation(format!("C07:panic:{}", crate::util::panic_key(&p)), p.msg, rp());
+                return;
+            }
+        };
+        let back = crate::textread::value_by_name(k, &text);
+        if back != Ok(v) {
+            r.violation(format!("C07:operand-name:{}", crate::gram::kind_name(k)), format!("{} value {:#x} is rendered {:?}, which reads back as {:?}", crate::gram::kind_name(k), v, text, back), rp());
+        } else {
+            r.nontrivial(format!("name:{}:{}", crate::gram::kind_name(k), v));
+        }
+    });
+    let n = cfg.n(6_000, 60_000);
     run_stage(cfg, rep, "builder-modules", n, |idx, rng, r| {
         let rp = || crate::util::replay_ref(cfg, "builder-modules", idx);
         let mut scratch = Report::new("C06");
